@@ -54,6 +54,7 @@ TITLES = [
     ("C17", r"malformed-plan_apply", "correlated IN / scalar subqueries whose correlation is not a plain equality stay `apply` nodes, which the executor cannot run", "src/planner/rules/plan.rs subquery_rules"),
     ("C17", r"malformed-plan_unresolved-subquery", "scalar subqueries in the select list and IN subqueries under OR survive optimisation as sub-plans inside expressions (no executor for them)", "src/planner/rules/plan.rs subquery_rules"),
     ("C17", r"malformed-plan:unresolved-subquery", "scalar / nested IN subqueries survive optimisation as sub-plans inside expressions (no executor for them)", "src/planner/rules/plan.rs subquery_rules"),
+    ("C17", r"malformed-plan_column-not-in-input", "a computed column of a derived table (a `ref` to `t1.a + t2.c`) used in an outer join condition: once the derived table's projection is merged away the column analysis still treats the ref as one opaque column that neither join input produces, so `pushdown-filter-join` pushes the condition onto the side that lacks its base columns (executor construction panics: column not found from input); widening the column set of a ref changes the plans pinned by the planner tests (not small)", "src/planner/rules/plan.rs analyze_columns / depend_on; pushdown-filter-join rules"),
     ("C17", r"malformed-plan", "the optimised plan violates what the executor requires", "src/planner/rules/plan.rs"),
     ("C17", r"operator-panics|execution-panics|executor-build-panics", "accepted statements whose plan panics in the executor: RIGHT/FULL nested-loop join todo!(), non-constant LIMIT, scalar subquery forms", "src/executor/nested_loop_join.rs; src/executor/mod.rs"),
     ("C18", r"database-does-not-open", "every row-set index is decoded when the database is opened: one corrupted *.idx file makes Database::new_on_disk panic, so tables that are not affected cannot be read either", "src/storage/secondary/storage.rs bootstrap (DiskRowset::open for all row-sets); src/db.rs new_on_disk unwrap"),
@@ -145,6 +146,8 @@ FIXED = [
     ("fix: REPLACE takes search and replacement strings that are not constants", "C14", "type matrix: `select replace(s, s, s) from ty` panicked in the evaluator ('replace from must be a string constant')"),
     ("fix: EXTRACT of hour, minute or second from a DATE is 0", "C14", "type matrix: `select extract(hour from dt) from ty`: 'no function extract HOUR from(Date)'"),
     ("fix: a DELETE does not delete, and count, rows that a concurrent DELETE has just deleted", "C10", "workload del-t|del-t (two sessions, `delete from t where a = 1` each), schedule B pins+locks, A scans, B commits, A commits: both report 1 deleted row (570 schedules); pointed out by a seeding agent"),
+    ("fix: INSERT .. SELECT of no rows succeeds on the disk engine", "C05", "history [IT1, IT0] (`insert into t(k, v, s) select k, v, s from t where k > 1000`): disk engine fails with 'empty rowset' at commit, memory engine reports 0 inserted rows; pointed out by a seeding agent"),
+    ("fix: DISTINCT ON with ORDER BY is planned into an executable plan", "C17", "`select distinct on (a) b from t1 order by a`: executor construction panicked 'column $0.1 not found from input' (the only DISTINCT ON form of the corpus was one the binder rejects); pointed out by a seeding agent"),
     ("fix: a DOUBLE that is infinite, NaN or beyond the range of DECIMAL", "C14", "table fd(d double, e decimal): `select i, d > e from fd` with d = 1e300 panicked (Decimal::from_f64_retain(..).unwrap()), likewise `cast(d * d as decimal)`; pointed out by a seeding agent"),
     ("fix: nullable block iterator keeps the validity", "C06", "int16 nullable plain, block 32, 81-row pattern, script [next(1), next(7)]: a batch spanning a block boundary lost rows / reported wrong row ids (155 050 cases)"),
 ]
